@@ -135,6 +135,24 @@ pub fn bech32_encode_const(hrp: &str, payload: &[u8], konst: u32) -> String {
     s
 }
 
+/// Checksum-valid bech32 string over arbitrary 5-bit symbols (not necessarily whole bytes).
+pub fn bech32_encode_data5(hrp: &str, data5: &[u8]) -> String {
+    let data: Vec<u8> = data5.iter().map(|d| d & 31).collect();
+    let mut values = hrp_expand(hrp);
+    values.extend(&data);
+    values.extend([0u8; 6]);
+    let pm = polymod(&values) ^ 1;
+    let mut s = String::from(hrp);
+    s.push('1');
+    for d in &data {
+        s.push(CHARSET[*d as usize] as char);
+    }
+    for i in 0..6 {
+        s.push(CHARSET[((pm >> (5 * (5 - i))) & 31) as usize] as char);
+    }
+    s
+}
+
 #[derive(Debug, Clone, PartialEq, Eq)]
 pub struct Decoded {
     pub hrp: String,
